@@ -323,8 +323,11 @@ def alt_paths(r, a):
     return out
 
 
+TIMEOUT = object()  # parse_text result: CPU budget hit (inconclusive)
+
+
 def parse_text(text, as_type=False, reset_resources=False):
-    """Parse in a FRESH context (unregistered allowed). -> attr | None on ParseError."""
+    """Parse in a FRESH context (unregistered allowed). -> attr | None on ParseError | TIMEOUT."""
     from xdsl.context import Context
     from xdsl.dialects.builtin import Builtin
     from xdsl.parser import Parser
@@ -342,8 +345,10 @@ def parse_text(text, as_type=False, reset_resources=False):
             if p._current_token.kind is not MLIRTokenKind.EOF:
                 return None
             return a
-    except (ParseError, G.ParseTimeout):
+    except ParseError:
         return None
+    except G.ParseTimeout:
+        return TIMEOUT
 
 
 def run_paths(h, recipe):
@@ -358,6 +363,10 @@ def run_paths(h, recipe):
     text = safe_str(a)
     if text is not None:
         b = parse_text(text, reset_resources=True)
+        if b is TIMEOUT:
+            b = None
+            if _counting(h):
+                h.inconclusive("parse_timeout")
         if b is not None and G.attr_key(b) == G.attr_key(a):  # otherwise: C06's business
             alts.append(("reparse", b))
     check_single(rep, a)
@@ -433,6 +442,10 @@ def run_text2(h, recipe):
         return
     a = parse_text(text)
     b = parse_text(text)
+    if a is TIMEOUT or b is TIMEOUT:
+        if _counting(h):
+            h.inconclusive("parse_timeout")
+        return
     if a is None and b is None:
         _discard(h, "text_does_not_parse")
         return
@@ -508,9 +521,14 @@ def run_opinfo(h, recipe):
     if ce != e1:
         report("opinfo_components", f"components equal: {ce}, OperationInfo equal: {e1}: {sa} vs {sb}",
                a1)
-    if e1 and not same and any(observably_different(x, y, G.attr_key(x), G.attr_key(y))
-                               for x, y in _zip_components(a1, b1)):
-        report("opinfo_diff_equal", f"{sa} and {sb} have equal CSE keys", a1)
+    if e1 and not same:
+        for x, y in _zip_components(a1, b1):
+            if observably_different(x, y, G.attr_key(x), G.attr_key(y)):
+                u, v, _ = descend(x, y, lambda p, q: G.attr_key(p) != G.attr_key(q))
+                h.mismatch({"check": "opinfo_diff_equal", "cls": "OperationInfo",
+                            "value_class": pair_class(u, v), "parent": "-"}, recipe,
+                           f"{sa} and {sb} have equal CSE keys")
+                break
     _case(h, recipe, True, "opinfo:" + ("same" if same else "different"))
 
 
